@@ -196,6 +196,9 @@ def check_case(case):
     except UnicodeEncodeError:
         unenc = True
     nontrivial = unenc or bool(case.get("placements"))
+    # a reader with scripting enabled takes noscript content as raw text, where the character references the serializer must write for
+    # unencodable characters stay literal (the serializer cannot know its reader): the scripting leg is for documents without them
+    scripting = bool(case.get("scripting")) and not unenc
     sig = sig64(markup, enc, omit)
     classes = ["enc:" + want_name] + ["place:" + x for x in (case.get("placements") or [])] + (["unencodable-text"] if unenc else [])
     p = h5.parser("etree", True, full_tree=True)
@@ -209,11 +212,11 @@ def check_case(case):
             src = _ReadOnly(out)
         else:
             src = out
-        r2 = p.parse(src)
+        r2 = p.parse(src, scripting=scripting)
     except Exception as e:
         return Verdict("fail", "parsing the encoded output raised %s" % type(e).__name__, "reparse-exception", nontrivial=nontrivial)
     got_enc = p.documentEncoding
-    cfg = "label=%r omit=%s walker=%s placements=%s\noutput %s" % (enc, omit, walker, case.get("placements"), short(out, 500))
+    cfg = "label=%r omit=%s walker=%s placements=%s scripting=%s\noutput %s" % (enc, omit, walker, case.get("placements"), scripting, short(out, 500))
     if want_name.startswith("utf-16") and active("C15-utf16-output"):
         # recorded: every output chunk is encoded on its own (one BOM per chunk) and a UTF-16 <meta> means UTF-8 to the reader
         if got_enc != want_name or obs.clarkify(obs.flat(r2)) != obs.clarkify(model(base, enc)):
@@ -223,7 +226,7 @@ def check_case(case):
     # the property compares with the tree of the *unencoded* serialization (same options), which factors out the
     # serializer's own round-trip defects (C07)
     ser_u = HTMLSerializer(omit_optional_tags=omit, quote_attr_values="always", minimize_boolean_attributes=False)
-    base_u, _ = h5.parse(ser_u.render(h5.walk(tree, walker)), builder="etree", full_tree=True)
+    base_u, _ = h5.parse(ser_u.render(h5.walk(tree, walker)), builder="etree", full_tree=True, scripting=scripting)
     want = obs.clarkify(model(obs.flat(base_u), enc))
     got = obs.clarkify(obs.flat(r2))
     if got != want:
@@ -298,6 +301,10 @@ def run_shard(desc, seed, tier):
         placements = add_metas(doc, dec, enc)
         case = {"doc": doc, "encoding": enc, "omit": bool(dec.below(2)), "walker": dec.pick(["etree", "dom"]), "placements": placements,
                 "source": dec.pick(["bytes", "bytes", "bytesio", "stream", "stream"])}
+        if data and data[-1] % 3 == 0 and "head-noscript" not in placements:
+            # a parser option, not an encoding hint: both parses below use it.  (Not with a declaration inside <noscript> in head:
+            # to a reader with scripting enabled that is text, and the model of the expected tree is written for scripting off.)
+            case["scripting"] = True
         acc.add(case, check_case(case), sample={"markup": short(G.writer(doc), 300), "encoding": enc})
     drive(st.tuples(sized_binary(20, 200), st.binary(min_size=26, max_size=26)), fn, desc["n"], seed)
     acc.extra["labels_used"] = len(labels)
